@@ -40,6 +40,9 @@ type Config struct {
 	// Debug switches on engine.Config.StateDebug/EngineDebug and installs an engine.SimpleDebug that writes to a
 	// counting sink (observational features: nothing a client sees may depend on them)
 	Debug bool `json:"debug,omitempty"`
+	// StoreSession: the per-request client also selects the session on its store handle (db.SetSession), as the
+	// repository's http example does, before it hands the handle to the persister
+	StoreSession bool `json:"store_session,omitempty"`
 }
 
 // DebugSink counts what the engine debugger writes.
@@ -448,6 +451,9 @@ func (d *PerRequest) Request(input []byte) *Obs {
 		} else {
 			pe = persist.NewPersister(store)
 		}
+		if d.Cfg.StoreSession {
+			store.SetSession(d.Cfg.SessionId) // every request, also on a shared handle
+		}
 		if d.Cfg.PersisterContent && !useShared {
 			ca := cache.NewCache()
 			if d.Cfg.CacheSize > 0 {
@@ -539,6 +545,9 @@ func (d *PerRequest) ReadStored() (st *StateSnap, ca *CacheSnap, errs string) {
 		return nil, nil, err.Error()
 	}
 	pv, _ := vk.Guard(func() {
+		if d.Cfg.StoreSession {
+			store.SetSession(d.Cfg.SessionId)
+		}
 		pe := persist.NewPersister(store)
 		pe = pe.WithContent(state.NewState(d.Cfg.FlagCount), cache.NewCache())
 		if err := pe.Load(d.Cfg.SessionId); err != nil {
@@ -568,6 +577,9 @@ func (d *PerRequest) Mutate(f func(st *state.State, ca *cache.Cache)) error {
 	}
 	var rerr error
 	pv, _ := vk.Guard(func() {
+		if d.Cfg.StoreSession {
+			store.SetSession(d.Cfg.SessionId)
+		}
 		pe := persist.NewPersister(store)
 		pe = pe.WithContent(state.NewState(d.Cfg.FlagCount), cache.NewCache())
 		if err := pe.Load(d.Cfg.SessionId); err != nil {
